@@ -56,8 +56,61 @@ func workloads() map[string]families.Workload {
 			w := families.Workload{Name: fmt.Sprintf("flat24/%s/3rg", cd), Target: "flat24", Recs: families.MixedRecords(t, 7), Batches: []int{3, 2, 2}, Page: 2, Codec: cd}
 			wlCache[w.Name] = w
 		}
+		for _, w := range embedWorkloads() {
+			wlCache[w.Name] = w
+		}
 	}
 	return wlCache
+}
+
+// embedWorkloads: files whose data embeds the image of a footer.  The first
+// row group is that of a smaller file F1; a string value of the second row
+// group is <F1's footer, padded with a key/value entry to a chosen length>
+// <its length> "XXXX".  Written uncompressed, the value (and the copies in the
+// page statistics) appears verbatim, so the prefix that ends right after a
+// copy ends like a complete file in everything but the magic bytes: a reader
+// that locates the footer from the length alone - for some range of footer
+// sizes - accepts it.  Lengths straddle the sizes at which a reader might
+// switch strategy (one 4 KiB / 64 KiB block).
+func embedWorkloads() []families.Workload {
+	t := sut.Get("mini")
+	tags := -1
+	for i, ch := range t.Schema().Children {
+		if ch.Name == "tags" {
+			tags = i
+		}
+	}
+	first := families.MixedRecords(t, 3)
+	f1 := fileOf(families.Workload{Name: "mini/uncompressed/embed-f1", Target: "mini", Recs: first, Batches: []int{3}, Page: 0, Codec: sut.Uncompressed})
+	pf, err := refpq.ParseFile(f1, refpq.ParseOptions{})
+	if err != nil || tags < 0 {
+		panic(fmt.Sprintf("embed: %v", err))
+	}
+	sizes := []int{0, 4000, 4200, 9000}
+	if thoroughTier {
+		sizes = append(sizes, 66000)
+	}
+	var out []families.Workload
+	for _, pad := range sizes {
+		ft, _, err := refpq.DecodeStruct(f1[pf.FooterStart : pf.FooterStart+pf.FooterLen])
+		if err != nil {
+			panic(err)
+		}
+		if pad > 0 {
+			kv := (&refpq.TS{}).Set(1, refpq.VStr("pad")).Set(2, refpq.VBin(bytes.Repeat([]byte{'p'}, pad)))
+			ft.Set(5, refpq.VList(refpq.TStruct, []refpq.TVal{refpq.VStruct(kv)}))
+		}
+		img := refpq.EncodeStruct(ft)
+		v := append(append([]byte(nil), img...), byte(len(img)), byte(len(img)>>8), byte(len(img)>>16), byte(len(img)>>24))
+		v = append(v, "XXXX"...)
+		last := families.MixedRecords(t, 1)[0]
+		last.Group = append([]refpq.Val(nil), last.Group...)
+		last.Group[tags] = refpq.Val{List: []refpq.Val{{Leaf: string(v)}}}
+		recs := append(append([]refpq.Val(nil), first...), last)
+		name := fmt.Sprintf("mini/uncompressed/embed-footer-%d", len(img))
+		out = append(out, families.Workload{Name: name, Target: "mini", Recs: recs, Batches: []int{3, 1}, Page: 0, Codec: sut.Uncompressed})
+	}
+	return out
 }
 
 func fileOf(w families.Workload) []byte {
@@ -259,7 +312,7 @@ func Main() {
 	fw.Main(fw.Spec{
 		ID:    "C11",
 		Level: "fault_enumeration",
-		Rule: "every strict prefix (every byte length 0..len-1) of every workload file (mini, person x 3 codecs x {1 page, multi-page, 2 row groups}; flat24 x 3 codecs x 3 row groups) is opened and iterated with the documented loop. " +
+		Rule: "every strict prefix (every byte length 0..len-1) of every workload file (mini, person x 3 codecs x {1 page, multi-page, 2 row groups}; flat24 x 3 codecs x 3 row groups; mini files whose string data embeds <footer image of the file's first row group><length>XXXX with image lengths below and above 4 KiB (and 64 KiB in thorough), so that some prefixes end like a complete file except for the magic bytes) is opened and iterated with the documented loop. " +
 			"Oracle: constructor error or Error() non-nil after iteration; no panic. distinct = (file, prefix length)",
 		Assumptions: []string{
 			"a prefix that is itself a complete valid file (an embedded footer image inside a value) would be legitimately accepted; the workload values contain none, and any accepted prefix is re-validated with the reference parser before it is called a violation",
